@@ -64,6 +64,13 @@ def crowdOne (label : String) (metric : Metric) (compiled wrapped : Bool) (nRemo
   let sites := errs.toList.map fun (e : Oob) => (e.site.replace " " "_") ++ s!"@{e.i},{e.j}"
   s!"{listOut (fun (x : Ext Float) => fOut x.toFloat) d} {sites.length} {String.intercalate " " sites}"
 
+/-- executable `MaxOnce` (hypothesis of `C13.pcd_first_pass_safe_partial`) for every objective -/
+def maxOnceAll (f : List (List Float)) (nObj : Nat) : Bool :=
+  (List.range nObj).all fun m =>
+    let col := column f m
+    let mx := col.getD (argmaxFirst col) 0.0
+    (col.filter fun x => !(x < mx)).length ≤ 1
+
 /-- `crowd3 <label> <n_remove> <F>` → compiled raw | fallback raw | wrapped compiled | wrapped fallback -/
 def compCrowd3 : P String := do
   let label ← tok
@@ -74,6 +81,11 @@ def compCrowd3 : P String := do
   | .ok metric =>
     let nObj := match f with | [] => 0 | r :: _ => r.length
     let ties := (metric == .mnn || metric == .twonn) && hasDistanceTies f nObj
+    -- theorem/interpreter consistency: under MaxOnce the first pass must stay in range
+    if metric == .pcd && nRemove ≤ 1 && maxOnceAll f nObj then
+      let (_, errs) := rawMetric Float.log2 (fun x => -x) .pcd true f nObj (Float.ofNat nObj) nRemove
+      if !errs.isEmpty then
+        return "err kernel interpreter reports an out-of-bounds access although every maximum is attained once (contradicts C13.pcd_first_pass_safe_partial)"
     return s!"ok {bOut ties} | {crowdOne label metric true false nRemove f} | {crowdOne label metric false false nRemove f} | {crowdOne label metric true true nRemove f} | {crowdOne label metric false true nRemove f}"
 
 end Pymoode.Drv
